@@ -11,7 +11,6 @@ import (
 	"io"
 	"os"
 	"sort"
-	"sync"
 
 	"github.com/syndtr/goleveldb/leveldb/storage"
 )
@@ -28,7 +27,7 @@ type memFile struct {
 }
 
 type SimDisk struct {
-	mu     sync.Mutex
+	mu     hmu
 	files  map[storage.FileDesc]*memFile
 	meta   storage.FileDesc
 	locked bool
@@ -50,11 +49,14 @@ type SimDisk struct {
 	Fired        map[string]int
 }
 
+//go:norace
 func NewSimDisk() *SimDisk {
 	return &SimDisk{files: map[storage.FileDesc]*memFile{}, Fired: map[string]int{}}
 }
 
 // CrashImage returns the disk as a process crash leaves it.
+//
+//go:norace
 func (d *SimDisk) CrashImage() *SimDisk {
 	d.mu.Lock()
 	defer d.mu.Unlock()
@@ -72,6 +74,8 @@ func (d *SimDisk) CrashImage() *SimDisk {
 
 // PowerLossImage drops everything after the last sync of each file
 // (exploration only; the wallet never syncs its journal).
+//
+//go:norace
 func (d *SimDisk) PowerLossImage() *SimDisk {
 	d.mu.Lock()
 	defer d.mu.Unlock()
@@ -83,6 +87,7 @@ func (d *SimDisk) PowerLossImage() *SimDisk {
 	return n
 }
 
+//go:norace
 func (d *SimDisk) TotalBytes() int {
 	d.mu.Lock()
 	defer d.mu.Unlock()
@@ -94,6 +99,8 @@ func (d *SimDisk) TotalBytes() int {
 }
 
 // AllBytes returns the current content of all files (sorted), for scanning.
+//
+//go:norace
 func (d *SimDisk) AllBytes() []byte {
 	d.mu.Lock()
 	defer d.mu.Unlock()
@@ -116,12 +123,14 @@ func (d *SimDisk) AllBytes() []byte {
 
 type diskLock struct{ d *SimDisk }
 
+//go:norace
 func (l *diskLock) Unlock() {
 	l.d.mu.Lock()
 	l.d.locked = false
 	l.d.mu.Unlock()
 }
 
+//go:norace
 func (d *SimDisk) Lock() (storage.Locker, error) {
 	d.mu.Lock()
 	defer d.mu.Unlock()
@@ -132,8 +141,10 @@ func (d *SimDisk) Lock() (storage.Locker, error) {
 	return &diskLock{d}, nil
 }
 
+//go:norace
 func (d *SimDisk) Log(str string) {}
 
+//go:norace
 func (d *SimDisk) SetMeta(fd storage.FileDesc) error {
 	d.mu.Lock()
 	defer d.mu.Unlock()
@@ -141,6 +152,7 @@ func (d *SimDisk) SetMeta(fd storage.FileDesc) error {
 	return nil
 }
 
+//go:norace
 func (d *SimDisk) GetMeta() (storage.FileDesc, error) {
 	d.mu.Lock()
 	defer d.mu.Unlock()
@@ -150,6 +162,7 @@ func (d *SimDisk) GetMeta() (storage.FileDesc, error) {
 	return d.meta, nil
 }
 
+//go:norace
 func (d *SimDisk) List(ft storage.FileType) ([]storage.FileDesc, error) {
 	d.mu.Lock()
 	defer d.mu.Unlock()
@@ -174,8 +187,10 @@ type diskReader struct {
 	d *SimDisk
 }
 
+//go:norace
 func (r *diskReader) Close() error { return nil }
 
+//go:norace
 func (d *SimDisk) Open(fd storage.FileDesc) (storage.Reader, error) {
 	d.mu.Lock()
 	defer d.mu.Unlock()
@@ -192,6 +207,7 @@ type diskWriter struct {
 	fd storage.FileDesc
 }
 
+//go:norace
 func (w *diskWriter) Write(p []byte) (int, error) {
 	d := w.d
 	d.mu.Lock()
@@ -243,6 +259,7 @@ func (w *diskWriter) Write(p []byte) (int, error) {
 	return len(p), nil
 }
 
+//go:norace
 func (w *diskWriter) Sync() error {
 	w.d.mu.Lock()
 	w.f.synced = len(w.f.data)
@@ -251,6 +268,7 @@ func (w *diskWriter) Sync() error {
 	return nil
 }
 
+//go:norace
 func (w *diskWriter) Close() error {
 	w.d.mu.Lock()
 	w.f.open = false
@@ -258,6 +276,7 @@ func (w *diskWriter) Close() error {
 	return nil
 }
 
+//go:norace
 func (d *SimDisk) Create(fd storage.FileDesc) (storage.Writer, error) {
 	d.mu.Lock()
 	defer d.mu.Unlock()
@@ -266,6 +285,7 @@ func (d *SimDisk) Create(fd storage.FileDesc) (storage.Writer, error) {
 	return &diskWriter{d: d, f: f, fd: fd}, nil
 }
 
+//go:norace
 func (d *SimDisk) Remove(fd storage.FileDesc) error {
 	d.mu.Lock()
 	defer d.mu.Unlock()
@@ -276,6 +296,7 @@ func (d *SimDisk) Remove(fd storage.FileDesc) error {
 	return nil
 }
 
+//go:norace
 func (d *SimDisk) Rename(oldfd, newfd storage.FileDesc) error {
 	d.mu.Lock()
 	defer d.mu.Unlock()
@@ -288,6 +309,7 @@ func (d *SimDisk) Rename(oldfd, newfd storage.FileDesc) error {
 	return nil
 }
 
+//go:norace
 func (d *SimDisk) Close() error {
 	d.mu.Lock()
 	defer d.mu.Unlock()
